@@ -224,3 +224,8 @@ func Verif_C04_remote_unit_followed_after_restart() {
 	wk.cancel()
 	verifapi.Quiesce()
 }
+
+// Verif_C04_rescan_while_runner_writes: the daemon was killed, the detached runner lives on and keeps
+// rewriting the status record while the restarted daemon scans the unit: the unit is picked up as its
+// registered type (and so followed to completion) under every schedule - see verifRescanWhileRunnerWrites.
+func Verif_C04_rescan_while_runner_writes() { verifRescanWhileRunnerWrites() }
